@@ -50,6 +50,39 @@ INPLACE_KW_METHODS = {"drop", "sort_values", "rename", "reset_index",
                       "drop_duplicates", "fillna", "set_index"}
 
 
+# leading positional parameters of library functions whose arguments the
+# rules inspect (NumPy / pandas public API; stable across the versions the
+# package supports)
+EXTERNAL_SIGS = {
+    "numpy.apply_along_axis": ("func1d", "axis", "arr"),
+    "numpy.interp": ("x", "xp", "fp"),
+    "numpy.concatenate": ("arrays", "axis"),
+    "numpy.hstack": ("tup",),
+    "numpy.argsort": ("a", "axis", "kind"),
+    "numpy.sort": ("a", "axis", "kind"),
+    "numpy.searchsorted": ("a", "v", "side"),
+    "numpy.split": ("ary", "indices_or_sections", "axis"),
+    "numpy.unique": ("ar",),
+    "numpy.clip": ("a", "a_min", "a_max"),
+    "numpy.linspace": ("start", "stop", "num"),
+    "numpy.histogram": ("a", "bins"),
+    "numpy.divide": ("x1", "x2"),
+    "numpy.flip": ("m", "axis"),
+    "numpy.cumsum": ("a", "axis"),
+    "numpy.where": ("condition", "x", "y"),
+    "numpy.full": ("shape", "fill_value"),
+    "numpy.append": ("arr", "values", "axis"),
+    "numpy.delete": ("arr", "obj", "axis"),
+    "numpy.logical_and": ("x1", "x2"),
+    "numpy.logical_or": ("x1", "x2"),
+    "numpy.maximum": ("x1", "x2"),
+    "numpy.minimum": ("x1", "x2"),
+    "numpy.polyfit": ("x", "y", "deg"),
+    "pandas.concat": ("objs",),
+    "scipy.optimize.nnls": ("A", "b"),
+}
+
+
 class Def:
     __slots__ = ("name", "kind", "node", "value", "extra", "uid")
     _n = 0
@@ -977,6 +1010,8 @@ class Terms:
         plain = ("call", qual, args, kws)
         if os.environ.get("MOKAPOT_NO_CALLCANON"):
             return plain
+        if qual in EXTERNAL_SIGS:
+            return self._canon_external(qual, args, kws)
         f = self.prog.funcs.get(qual)
         is_ctor = False
         if f is None and qual in self.prog.classes:
@@ -992,6 +1027,35 @@ class Terms:
         if r is None:
             return plain
         return ("call", qual, r[0], r[1])
+
+    def _canon_external(self, qual, args, kws):
+        """Library functions the rules look into: keyword arguments that
+        name a leading parameter are written positionally (np.interp(x=a,
+        xp=b, fp=c) is np.interp(a, b, c)); everything else stays as it
+        is.  Signatures: EXTERNAL_SIGS."""
+        plain = ("call", qual, args, kws)
+        pos = EXTERNAL_SIGS[qual]
+        if any(isinstance(x, tuple) and x and x[0] == "star" for x in args) \
+                or any(k == "**" for k, _v in kws) or len(args) > len(pos):
+            return plain
+        bound = dict(zip(pos, args))
+        rest = []
+        for k, v in kws:
+            if k in bound:
+                return plain
+            if k in pos:
+                bound[k] = v
+            else:
+                rest.append((k, v))
+        out_pos = []
+        for name in pos:
+            if name in bound:
+                out_pos.append(bound.pop(name))
+            else:
+                break
+        rest += list(bound.items())
+        return ("call", qual, tuple(out_pos),
+                tuple(sorted(rest, key=lambda x: x[0])))
 
     def _canon_mcall(self, recv, meth, args, kws):
         """The same for a method call whose method name has one signature in
